@@ -18,7 +18,7 @@ else
 fi
 [ -f Makefile ] || coq_makefile -f _CoqProject -o Makefile >/dev/null
 if [ $# -eq 0 ]; then
-  timeout "${COQ_TIMEOUT:-400}" make -j"${COQ_JOBS:-16}" 2>&1
+  timeout "${COQ_TIMEOUT:-400}" make ${COQ_KEEP_GOING:+-k} -j"${COQ_JOBS:-16}" 2>&1
 else
   timeout "${COQ_TIMEOUT:-400}" make -j"${COQ_JOBS:-16}" "$@" 2>&1
 fi
